@@ -158,8 +158,14 @@ structure Ghost where
   done : Key → Nat
   pend : Key → Nat
 
-def gstep (g : Ghost) (op : Op) (res : Option Err) : Ghost :=
+/-- observable outcome of a reconnect check: was the `BatchCleaner` asked to delete the staged batch -/
+def deleted (db : DB) : Op → Bool
+  | .reconnect rpc rm => (C06.reconnect rpc rm db).2.1.contains .deletePendingBatch
+  | _ => false
+
+def gstep (g : Ghost) (op : Op) (res : Option Err) (del : Bool) : Ghost :=
   match op, res with
+  | .reconnect _ _, _ => if del then { g with pend := fun _ => 0 } else g
   | .stage b, none => { g with pend := unitsFor b }        -- a successful (re-)staging replaces the staged batch
   | .complete, none => { done := fun n => g.done n + g.pend n, pend := fun _ => 0 }
   | .discard, _ => { g with pend := fun _ => 0 }
@@ -167,7 +173,7 @@ def gstep (g : Ghost) (op : Op) (res : Option Err) : Ghost :=
 
 def grun (db : DB) (g : Ghost) : List Op → DB × Ghost
   | [] => (db, g)
-  | op :: ops => grun (step db op).1 (gstep g op (step db op).2) ops
+  | op :: ops => grun (step db op).1 (gstep g op (step db op).2 (deleted db op)) ops
 
 /-- the inductive invariant tying the database to the ghost -/
 structure Inv (db0 db : DB) (g : Ghost) : Prop where
@@ -184,9 +190,23 @@ structure Inv (db0 db : DB) (g : Ghost) : Prop where
 
 theorem inv_step {db0 db : DB} {g : Ghost} (h : Inv db0 db g) (op : Op)
     (hop : ∀ b, op = .stage b → (keys b.matched).Nodup) :
-    Inv db0 (step db op).1 (gstep g op (step db op).2) := by
+    Inv db0 (step db op).1 (gstep g op (step db op).2 (deleted db op)) := by
   cases op with
   | reopen => exact h
+  | reconnect rpc rm =>
+    -- the check either keeps everything or does exactly what `discard` does, and the cleaner call tells which
+    simp only [step, C06.step, deleted, gstep, C06.reconnect]
+    by_cases hdel : (checkPendingBatch (pendingBatchSnapshot db) rpc { removeOk := rm, deleteOk := true }).1.contains
+        Call.deletePendingBatch = true
+    · simp only [hdel, if_true]
+      have hc := (refines_discard db h.coh).2
+      refine ⟨hc, ?_, ?_, ?_, ?_, h.wf⟩
+      · exact h.main
+      · intro st hs; cases hs
+      · intro st hs; cases hs
+      · intro _ n; rfl
+    · simp only [Bool.not_eq_true] at hdel
+      simp only [hdel, Bool.false_eq_true, if_false]; exact h
   | discard =>
     have hc := (refines_discard db h.coh).2
     refine ⟨hc, ?_, ?_, ?_, ?_, h.wf⟩
@@ -286,6 +306,22 @@ theorem inv_step {db0 db : DB} {g : Ghost} (h : Inv db0 db g) (op : Op)
           obtain ⟨x, hx, _⟩ := hev n us hmn
           simp [hmn, hx] at hl
       · intro hs'; rw [hstg] at hs'; cases hs'
+
+/-- **A reconnect that finds the SAME txid finalised keeps the staged batch** – whatever the bytes of the
+finalised transaction (it carries witnesses, the staged one does not): the comparison is on txids, so the database
+is untouched and the later completion still updates the fill state (`C13_fill_exact`). -/
+theorem C13_reconnect_same_txid_keeps (db : DB) (s : Snap) (hs : db.pendingSnap = some s) (rm : Bool) :
+    step db (.reconnect (.finalized s.tx) rm) = (db, none) := by
+  simp only [step, C06.step]
+  rw [reconnect_db, hs]
+  simp
+
+/-- … and it never changes an order, whatever the auctioneer answers -/
+theorem C13_reconnect_orders_untouched (db : DB) (rpc : Rpc) (rm : Bool) :
+    (step db (.reconnect rpc rm)).1.orders = db.orders := by
+  have := (C06_reconnect_never_applies db rpc rm).2
+  simp only [vis, Visible.mk.injEq] at this
+  exact this.2.1
 
 theorem inv_grun {db0 db : DB} {g : Ghost} (h : Inv db0 db g) (ops : List Op)
     (hops : ∀ b, Op.stage b ∈ ops → (keys b.matched).Nodup) :
